@@ -442,3 +442,83 @@ func (ps *specParser) primary() SExpr {
 	ps.fail("unexpected token " + t.s)
 	return nil
 }
+
+// ---- printing and splitting ----
+
+func SpecString(x SExpr) string {
+	switch n := x.(type) {
+	case *SIdent:
+		return n.Name
+	case *SLit:
+		switch n.Kind {
+		case "string":
+			return fmt.Sprintf("%q", n.Val)
+		case "nil":
+			return "nil"
+		}
+		return n.Val
+	case *SUnary:
+		return n.Op + SpecString(n.X)
+	case *SBinary:
+		return "(" + SpecString(n.X) + " " + n.Op + " " + SpecString(n.Y) + ")"
+	case *SCond:
+		return "(" + SpecString(n.C) + " ? " + SpecString(n.A) + " : " + SpecString(n.B) + ")"
+	case *SSel:
+		return SpecString(n.X) + "." + n.Name
+	case *SIndex:
+		return SpecString(n.X) + "[" + SpecString(n.I) + "]"
+	case *SSlice:
+		lo, hi := "", ""
+		if n.Lo != nil {
+			lo = SpecString(n.Lo)
+		}
+		if n.Hi != nil {
+			hi = SpecString(n.Hi)
+		}
+		return SpecString(n.X) + "[" + lo + ":" + hi + "]"
+	case *SCall:
+		var as []string
+		for _, a := range n.Args {
+			as = append(as, SpecString(a))
+		}
+		return n.Fun + "(" + strings.Join(as, ", ") + ")"
+	case *SQuant:
+		q := "forall"
+		if !n.Forall {
+			q = "exists"
+		}
+		var vs []string
+		for _, v := range n.Vars {
+			vs = append(vs, v.Name+" "+v.Type)
+		}
+		return "(" + q + " " + strings.Join(vs, ", ") + " :: " + SpecString(n.Body) + ")"
+	case *SLet:
+		return "(let " + n.Name + " = " + SpecString(n.X) + " in " + SpecString(n.Body) + ")"
+	}
+	return "?"
+}
+
+// SplitConj splits `H ==> (A && B)` / `A && B` into separate clauses so that each
+// conjunct becomes its own obligation (quantifier-free parts then yield models).
+func SplitConj(x SExpr) []SExpr {
+	switch n := x.(type) {
+	case *SBinary:
+		switch n.Op {
+		case "&&":
+			return append(SplitConj(n.X), SplitConj(n.Y)...)
+		case "==>":
+			var out []SExpr
+			for _, p := range SplitConj(n.Y) {
+				out = append(out, &SBinary{"==>", n.X, p})
+			}
+			return out
+		}
+	case *SLet:
+		var out []SExpr
+		for _, p := range SplitConj(n.Body) {
+			out = append(out, &SLet{n.Name, n.X, p})
+		}
+		return out
+	}
+	return []SExpr{x}
+}
